@@ -280,3 +280,10 @@ package eval
 //@   sitesonly
 //@   inline 2 1
 //@   callsite[C17] RestoreFrame a_currentFrame == base.TFrame && a_originalFrame == tFrame
+
+//@ # ---- C06: dbtp reports on the row of its own statement ----
+//@ # (the row in effect when the evaluator was entered, not the reader's row after the expression)
+//@ func (*ti/eval.DebugTypePrint).Evaluation
+//@   requires wfP(p) && p != nil
+//@   inline 2 1
+//@   callsite[C06] TypeToString p.ErrorRow == old(p.ErrorRow)
